@@ -130,7 +130,7 @@ def fidelity_of_separability(
         raise AssertionError("For State SDP: require bipartite state dims.")
     if not is_pure(input_state_rho):
         raise ValueError("This function only works for pure states.")
-    if not is_separable(input_state_rho):
+    if not is_separable(input_state_rho, input_state_rho_dims):
         raise ValueError("Provided input state is entangled.")
 
     # Infer the dimension of Alice and Bob's system. subsystem-dimensions in rho_AB
